@@ -206,7 +206,23 @@ fn json_documents(tier: Tier) -> Vec<serde_json::Value> {
     docs.push(json!({"end": 1, "nil": 2, "1a": 3, "a b": 4, "": 5, "é": 6}));
     docs.push(json!([[[[[[1]]]]]]));
     docs.push(json!({"a": {"b": {"c": {"d": {"e": []}}}}}));
-    let _ = tier;
+    if tier == Tier::Thorough {
+        // triples of scalars (nulls and values in every arrangement), keys nested in keys with every scalar
+        for a in &sc {
+            for b in &sc {
+                for c in sc.iter().step_by(3) {
+                    docs.push(json!([a, b, c]));
+                }
+            }
+        }
+        for k1 in AWKWARD_STRINGS {
+            for k2 in AWKWARD_STRINGS {
+                for v in sc.iter().step_by(5) {
+                    docs.push(json!({ *k1: { *k2: v }, *k2: [v, { *k1: v }] }));
+                }
+            }
+        }
+    }
     {
         for a in &sc {
             for b in &sc {
